@@ -216,7 +216,8 @@ def gen_google(rng):
             body = rng.choice(['x (int): a number', 'some prose', body])
             broken = broken and body in BROKEN_BODIES
         blocks.append((tag, tag in EXAMPLE_TAGS, body, broken))
-        lines.append(tag + ':')
+        # the header pattern is `^(tag) *::? *$`: blanks before and after the colon(s) are part of a legal header
+        lines.append(tag + rng.choice([':', ':', ':', '::', ' :', ': ', '  ::  ', ' : ']))
         lines.extend('    ' + l for l in body.split('\n'))
         lines.append('')
     return '\n'.join(lines), blocks
